@@ -4,3 +4,5 @@ open GoMail.Props.C15
 #print axioms final_before_first_refused
 #print axioms foreign_nonce_refused
 #print axioms counterexample_bare_success
+#print axioms replay_on_a_new_exchange_refused
+#print axioms start_forgets_login
